@@ -14,7 +14,9 @@ class C17(C16):
             "grammar (prefixes ../ ../../ /../ // \\\\ file: FILE:/ ln_out/ /ln_out/ a/ln_up/../ /c/ln_abs/ <abs outside>/ "
             "/ln_file_out ln_in/ ./ a// /./ /// x bodies secret.csv, outside/secret.csv, existing files, '', ..), placed "
             "in root files and in nested files; root_folder always set; every open / listdir / scandir is observed and "
-            "must lie under the root; non-trivial = at least one hostile specification was resolved")
+            "must lie under the root; plus the directed matrix of every escape route x placement; non-trivial = the tree holds a "
+            "symbolic link or some specification contains '..', a link name, an absolute outside path, '//', a backslash or "
+            "a file: prefix")
     assumptions = C16.assumptions + ["the root folder is given as an absolute, resolved path",
                                      "symlink loops make pathlib raise RuntimeError / OSError (outside the statement)"]
 
@@ -81,8 +83,15 @@ class C17(C16):
             fails.append(f"exception: {obs['exc']}")
         return fails
 
+    HOSTILE = ("..", "ln_", "alias", "ABS_OUTSIDE", "//", "\\", "file:", "FILE:", "root_x")
+
     def nontrivial(self, case, obs):
-        return True
+        specs = list(case["cfg"]["roots"]) if case.get("cfg") else []
+        for f in case["tree"]["files"]:
+            for b in f["blocks"]:
+                if b["k"] == "include":
+                    specs += b["lines"]
+        return any(m in sp for sp in specs for m in self.HOSTILE) or bool(case["tree"]["links"])
 
 
 PROP = C17()
